@@ -127,7 +127,23 @@ fn draw_edit(r: &mut Prng, f: &FactSet, which: u64) -> Option<Edit> {
         }
     };
     match which {
-        0 => Some(Edit::RenameTerm { id: *r.pick(&ids), name: format!("renamed {}", r.below(1000)) }),
+        0 => {
+            // usually a fresh name; sometimes a change that only shows beyond the first 255 bytes, or in the last character
+            let id = *r.pick(&ids);
+            let old = &f.terms.iter().find(|t| t.id == id).unwrap().name;
+            let name = match r.below(4) {
+                0 => format!("{old}x"),
+                1 if old.len() > 1 => {
+                    let cut = (0..old.len()).rev().find(|i| old.is_char_boundary(*i)).unwrap_or(0);
+                    old[..cut].to_string()
+                }
+                _ => format!("renamed {}", r.below(1000)),
+            };
+            if &name == old {
+                return None;
+            }
+            Some(Edit::RenameTerm { id, name })
+        }
         1 => Some(Edit::FlipObsolete { id: *r.pick(&ids) }),
         2 => {
             let id = *r.pick(&ids);
@@ -179,20 +195,32 @@ fn draw_edit(r: &mut Prng, f: &FactSet, which: u64) -> Option<Edit> {
                     if recs.is_empty() {
                         return None;
                     }
-                    let rec = r.pick(recs);
-                    let c: Vec<u32> = ids.iter().copied().filter(|t| !rec.terms.contains(t)).collect();
+                    // half of the time the record with the most terms (groups beyond 30 ids), and an id at either end
+                    let rec = if r.chance(1, 2) { recs.iter().max_by_key(|x| x.terms.len()).unwrap() } else { r.pick(recs) };
+                    let mut c: Vec<u32> = ids.iter().copied().filter(|t| !rec.terms.contains(t)).collect();
                     if c.is_empty() {
                         return None;
                     }
-                    Some(Edit::AddAnn { kind, id: rec.id, term: *r.pick(&c) })
+                    c.sort_unstable();
+                    let term = match r.below(4) {
+                        0 => c[0],
+                        1 => c[c.len() - 1],
+                        _ => *r.pick(&c),
+                    };
+                    Some(Edit::AddAnn { kind, id: rec.id, term })
                 }
                 9 => {
                     let c: Vec<&Rec> = recs.iter().filter(|x| !x.terms.is_empty()).collect();
                     if c.is_empty() {
                         return None;
                     }
-                    let rec = *r.pick(&c);
-                    Some(Edit::RemoveAnn { kind, id: rec.id, term: *r.pick(&rec.terms) })
+                    let rec = if r.chance(1, 2) { *c.iter().max_by_key(|x| x.terms.len()).unwrap() } else { *r.pick(&c) };
+                    let term = match r.below(4) {
+                        0 => rec.terms[0],
+                        1 => rec.terms[rec.terms.len() - 1],
+                        _ => *r.pick(&rec.terms),
+                    };
+                    Some(Edit::RemoveAnn { kind, id: rec.id, term })
                 }
                 10 => {
                     let mut id = r.range(1, 40) as u32;
@@ -213,9 +241,15 @@ fn draw_edit(r: &mut Prng, f: &FactSet, which: u64) -> Option<Edit> {
 pub fn generate(r: &mut Prng, seed: u64, run: u64) -> Scenario {
     let mut cfg = GenCfg::draw(r);
     cfg.std_roots = true;
-    cfg.names = cfg.names.min(2);
+    // over-long names (a rename beyond byte 255) only on a share of the runs; the round-trip clause skips those
+    cfg.names = if r.chance(1, 6) { 3 } else { cfg.names.min(2) };
     cfg.rec_no_terms = false; // text cannot carry them; keep all transports usable
-    cfg.n_terms = cfg.n_terms.min(40);
+    cfg.n_terms = cfg.n_terms.min(48);
+    cfg.fat_record = r.chance(1, 6);
+    if cfg.fat_record {
+        cfg.n_terms = cfg.n_terms.max(36);
+        cfg.max_recs = [cfg.max_recs[0].max(1), cfg.max_recs[1].max(1), cfg.max_recs[2].max(1)];
+    }
     let facts = gen_facts(r, &cfg);
     let mut edits = vec![];
     let n_edits = if r.chance(1, 8) { 0 } else if r.chance(1, 2) { 1 } else { r.urange(2, 4) };
